@@ -19,6 +19,7 @@ PROPS = {
             {"name": "trees", "pkg": "./c01", "run": "^TestRapidTrees$", "rapid": T(10000, 20000), "shards": T(1, 8)},
             {"name": "exhaustive", "pkg": "./c01", "run": "^(TestEmptyShapes|TestRegress)$"},
             {"name": "sigma", "pkg": "./c01", "run": "^TestSigmaExhaustive$", "shards": T(1, 16)},
+            {"name": "fuzz", "pkg": "./c01", "run": "^FuzzPrograms$", "fuzz": "^FuzzPrograms$", "fuzztime": T(0, 180), "thorough_only": True, "timeout": T(600, 900)},
         ],
         "assumptions": LP_ASSUME,
         "claim": {"ref": "DESIGN.md §5 C01", "technique": "property-based testing (rapid) over a logging-program language + exhaustive class-alphabet strings and empty shapes; oracle: independent strict RFC 8259/UTF-8/single-line validator",
@@ -28,7 +29,7 @@ PROPS = {
     "C02": {
         "jobs": [
             {"name": "float32", "pkg": "./c02", "run": "^TestFloat32Sweep$", "shards": T(1, 16), "timeout": T(600, 3600)},
-            {"name": "grids", "pkg": "./c02", "run": "^(TestIntegerBoundaries|TestTimeAndDurationGrid|TestRegress)$"},
+            {"name": "grids", "pkg": "./c02", "run": "^(TestIntegerBoundaries|TestTimeAndDurationGrid|TestFloat64Stratified|TestRegress)$"},
             {"name": "sigma", "pkg": "./c02", "run": "^TestSigmaStrings$", "shards": T(1, 16)},
             {"name": "rapid-values", "pkg": "./c02", "run": "^TestRapidValues$", "rapid": T(4000, 30000), "shards": T(1, 8)},
             {"name": "rapid-programs", "pkg": "./c02", "run": "^TestRapidPrograms$", "rapid": T(3000, 20000), "shards": T(1, 8), "replay": "^TestReplay$"},
@@ -263,3 +264,5 @@ PROPS["C13"]["jobs"] += _logsched_jobs(3000, 60000)
 PROPS["C15"]["jobs"] += _logsched_jobs(3000, 60000)
 for _p in ("C06", "C13", "C15"):
     PROPS[_p]["assumptions"] = PROPS[_p]["assumptions"] + ["scheduler tier: the root package is rewritten onto the cooperative scheduler (sync.Pool as a LIFO stack, mutexes and atomics as scheduling points); see C10 assumptions"]
+
+PROPS["C11"]["jobs"] = PROPS["C11"]["jobs"] + [{"name": "fatal-path", "pkg": "./c11", "run": "^TestFatalDrains$", "timeout": T(600, 600)}]
